@@ -1,37 +1,48 @@
 use redb::*;
 use rv::backend::MonBackend;
-const T: TableDefinition<u64, u64> = TableDefinition::new("F0");
+const A: TableDefinition<u64, &[u8]> = TableDefinition::new("A0");
 fn main() {
     let args: Vec<String> = std::env::args().collect();
-    let variant: u32 = args.get(1).and_then(|s| s.parse().ok()).unwrap_or(0);
-    let be = MonBackend::new();
-    let db = Database::builder().create_with_backend(be.clone()).unwrap();
-    if variant & 16 != 0 {
+    let page: usize = args.get(1).and_then(|s| s.parse().ok()).unwrap_or(4096);
+    let n: u64 = args.get(2).and_then(|s| s.parse().ok()).unwrap_or(30);
+    let mut be = MonBackend::new();
+    let mk = |be: &MonBackend| {
+        let mut b = Database::builder();
+        b.verif_set_page_size(page);
+        b.verif_set_region_size(32 * page as u64);
+        b.create_with_backend(be.clone()).unwrap()
+    };
+    let db = mk(&be);
+    for round in 0..3 {
         let txn = db.begin_write().unwrap();
-        { let mut t = txn.open_table(T).unwrap(); t.insert(1, 1).unwrap(); }
+        {
+            let mut t = txn.open_table(A).unwrap();
+            for i in 0..n {
+                t.insert(i * 7 + round, vec![1u8; 700].as_slice()).unwrap();
+            }
+            for i in 0..n / 2 {
+                t.remove(i * 14 + round).unwrap();
+            }
+        }
         txn.commit().unwrap();
     }
     drop(db);
-    let be = MonBackend::from_image(be.image());
-    let mut db = Database::builder().create_with_backend(be.clone()).unwrap();
-    if variant & 1 != 0 {
-        println!("after reopen check_integrity = {:?}", db.check_integrity());
+    println!("closed len L0 = {}", be.lock().data.len());
+    for k in 1..=4 {
+        be = MonBackend::from_image(be.image());
+        let mut db = mk(&be);
+        let open_before = be.lock().data.len();
+        let r = db.compact().unwrap();
+        let open_after = be.lock().data.len();
+        drop(db);
+        println!("compact #{k}: returned {r}; open before {open_before}, at return {open_after}, after close {}", be.lock().data.len());
     }
-    if variant & 2 != 0 {
-        let txn = db.begin_write().unwrap();
-        txn.commit().unwrap();
+    // two compactions without closing in between
+    be = MonBackend::from_image(be.image());
+    let mut db = mk(&be);
+    for k in 1..=3 {
+        let b = be.lock().data.len();
+        let r = db.compact().unwrap();
+        println!("same-session compact #{k}: returned {r}; before {b}, at return {}", be.lock().data.len());
     }
-    if variant & 4 != 0 {
-        let txn = db.begin_write().unwrap();
-        {
-            let _t = txn.open_table(T).unwrap();
-        }
-        txn.abort().unwrap();
-    }
-    if variant & 8 != 0 {
-        let txn = db.begin_write().unwrap();
-        txn.abort().unwrap();
-    }
-    println!("variant {variant}: check_integrity = {:?}", db.check_integrity());
-    println!("second: check_integrity = {:?}", db.check_integrity());
 }
